@@ -108,3 +108,23 @@ Definition sp_zip (vs : list value) : value :=
   let n := match ls with [] => O | l :: r => fold_right Nat.min (length l) (map (@length value) r) end in
   VList (map (fun i => VList (map (fun l => nth i l VNull) ls) (Some SSpace) false) (seq 0 n))
         (Some SComma) false.
+
+(* ==: two lists are equal when they have == elements in the same order, the same separator
+   (an undecided separator is its own kind) and the same brackets; other values by their own == *)
+Definition sp_same_sep (a b : option sep) : bool :=
+  match a, b with
+  | None, None => true
+  | Some x, Some y => N.eqb (sep_rank x) (sep_rank y)
+  | _, _ => false
+  end.
+Fixpoint all2 (f : value -> value -> bool) (a b : list value) : bool :=
+  match a, b with
+  | [], [] => true
+  | x :: a', y :: b' => f x y && all2 f a' b'
+  | _, _ => false
+  end.
+Definition sp_equal (a b : value) : bool :=
+  match a, b with
+  | VList xs s1 k1, VList ys s2 k2 => all2 veq xs ys && sp_same_sep s1 s2 && Bool.eqb k1 k2
+  | _, _ => veq a b
+  end.
